@@ -266,8 +266,13 @@ class Ctx:
             env.update(extra_env)
         if os.path.exists(outp):
             os.remove(outp)
-        rc, out = sh([PY, '-W', 'ignore', os.path.join(VERIF, 'harness', 'impl', script + '.py'), inp, outp],
-                     timeout=timeout, cwd=self.work, env=env)
+        cmd = [PY, '-W', 'ignore', os.path.join(VERIF, 'harness', 'impl', script + '.py'), inp, outp]
+        if mode == 'rt' and netns_available():
+            # real-time mode binds UDP ports: give every RT runner a private network namespace (own loopback),
+            # so that concurrently running checks / other jobs can never collide on a port
+            import shlex
+            cmd = ['unshare', '-rn', 'sh', '-c', 'ip link set lo up 2>/dev/null; exec ' + ' '.join(shlex.quote(c) for c in cmd)]
+        rc, out = sh(cmd, timeout=timeout, cwd=self.work, env=env)
         if rc != 0 or not os.path.exists(outp):
             raise ImplError('impl runner %s failed rc=%s\n%s' % (script, rc, out[-4000:]))
         with open(outp) as f:
@@ -276,6 +281,20 @@ class Ctx:
 
 class ImplError(Exception):
     pass
+
+
+_NETNS = None
+
+
+def netns_available():
+    global _NETNS
+    if _NETNS is None:
+        try:
+            rc, out = sh(['unshare', '-rn', 'sh', '-c', 'ip link set lo up && echo ok'], timeout=20)
+            _NETNS = (rc == 0 and 'ok' in out)
+        except Exception:
+            _NETNS = False
+    return _NETNS
 
 
 def parse_nat_list(out):
@@ -455,6 +474,11 @@ def clean_work(ctx):
 
 
 def run_check(pid, tier, seed, mod):
+    with Lock('check-' + pid):
+        return _run_check(pid, tier, seed, mod)
+
+
+def _run_check(pid, tier, seed, mod):
     t0 = time.time()
     ctx = Ctx(pid, tier, seed)
     clean_work(ctx)
